@@ -205,7 +205,7 @@ def C05(ctx):
     ctx.res.cov['exhaustive'] = not ctx.quick
     if ctx.quick:
         cases = ctx.sample(cases, 700)
-    cases += ctx.export('FamilyX(p, {"same-set-twice-direct", "same-set-twice-in-set", "inline-set-conflict", "same-provider-twice-direct", "same-provider-twice-in-set", "blank-param-conflicts-with-set", "unnamed-param-conflicts-with-set"})')
+    cases += ctx.export('FamilyX(p, {"same-set-twice-direct", "same-set-twice-in-set", "inline-set-conflict", "same-provider-twice-direct", "same-provider-twice-in-set", "blank-param-conflicts-with-set", "unnamed-param-conflicts-with-set", "multi-name-var-sets-conflict"})')
     ctx.design_analyze(cases, limit=500 if ctx.quick else 1200, label='family K ')
     ctx.run(cases, runtime=False, check=True)
 
